@@ -41,7 +41,7 @@ impl SketchSlice<'_> {
     /// Advances the position of the slice by `n` bytes.
     pub fn advance(&mut self, n: u64) {
         let pos = self.slice.position();
-        self.slice.set_position(pos + n);
+        self.slice.set_position(pos.saturating_add(n));
     }
 
     /// Reads exactly `buf.len()` bytes from the slice into `buf`.
